@@ -566,7 +566,7 @@ where
         cases,
         failure_persistence: None,
         rng_seed: RngSeed::Fixed(seed),
-        max_shrink_iters: 20000,
+        max_shrink_iters: 2500,
         max_global_rejects: 1 << 20,
         max_local_rejects: 1 << 20,
         ..Config::default()
